@@ -10,6 +10,11 @@ meta = json.load(open(os.path.join(d, 'meta.json')))
 tmp = tempfile.mkdtemp(prefix='vf_seed_')
 res = {'name': name, 'tier': tier, 'runs': []}
 try:
+    # evidence files written by a seeded run describe the mutated tree: keep the current ones of the properties concerned and put them back afterwards
+    saved = {}
+    for chk in meta['checks']:
+        ev = os.path.join(VERIF, 'evidence', chk['property'] + '.json')
+        if os.path.exists(ev) and ev not in saved: saved[ev] = open(ev, 'rb').read()
     shutil.copytree('/repo/src', os.path.join(tmp, 'src'))
     p = subprocess.run(['patch', '-p1', '-d', tmp, '-i', os.path.join(d, 'patch.diff')], stdout=subprocess.PIPE, stderr=subprocess.STDOUT)
     if p.returncode != 0:
@@ -28,6 +33,6 @@ try:
     json.dump(res, open(os.path.join(d, 'result.json'), 'w'), indent=1)
 finally:
     shutil.rmtree(tmp, ignore_errors=True)
-    # evidence files and replay files written by a seeded run describe the mutated tree: restore the committed ones
-    subprocess.run(['git', '-C', VERIF, 'checkout', '--', 'evidence'], stdout=subprocess.PIPE, stderr=subprocess.PIPE)
+    for ev, data in (saved if 'saved' in dir() else {}).items():
+        open(ev, 'wb').write(data)
 sys.exit(0 if res['caught'] else 1)
